@@ -95,14 +95,14 @@ def check_state(job):
     err = np.linalg.norm(D - E) / max(np.linalg.norm(E), 1e-300)
     if err > tol:
         out.append((["C16"], "encoding", "dense(Sense) differs from the explicit multi-coil encoding: relative error %.3g > %.3g" % (err, tol)))
-    if AH is None or not np.allclose(AH, D.conj().T, atol=1e-10 * max(1.0, np.abs(D).max())):
+    if AH is None or not core.allclose(AH, D.conj().T, atol=1e-10 * max(1.0, np.abs(D).max())):
         out.append((["C16", "C01"], "adjoint", "Sense.H is not the conjugate transpose of Sense"))
     if not np.array_equal(mps, mps0):
         out.append((["C02", "C16"], "maps_mutated", "the sensitivity maps were modified"))
     # every batching must give the same forward / adjoint
     A1 = sp.mri.linop.Sense(mps, coord=coord, weights=w)
     D1, _ = linop_build.dense(A1)
-    if D1 is None or not np.allclose(D, D1, atol=1e-12 * max(1.0, np.abs(D1).max())):
+    if D1 is None or not core.allclose(D, D1, atol=1e-12 * max(1.0, np.abs(D1).max())):
         out.append((["C16"], "batch_variance", "coil_batch_size=%s changes the operator (max diff %.3g)" % (bsz, np.abs(D - D1).max() if D1 is not None else -1)))
     for kind, d in dfs:
         out.append((["C02"], kind, d))
@@ -127,14 +127,14 @@ def check_state(job):
                 return c, out
         sw = np.sqrt(w.astype(np.float64)).ravel() if w is not None else np.ones(F.shape[0])
         Et = np.vstack([sum(np.diag(sw * bseg[:, l]) @ F @ np.diag(ctseg[:, l].ravel() * mps[k].ravel()) for l in range(tseg["lseg"])) for k in range(nc)])
-        if Dt is None or Dt1 is None or Dt.shape != Dt1.shape or not np.allclose(Dt, Dt1, atol=1e-12 * max(1.0, np.abs(Dt1).max())):
+        if Dt is None or Dt1 is None or Dt.shape != Dt1.shape or not core.allclose(Dt, Dt1, atol=1e-12 * max(1.0, np.abs(Dt1).max())):
             out.append((["C16"], "batch_variance", "with off-resonance segments (tseg) coil_batch_size=%s changes the operator (max diff %.3g; difference to the operator WITHOUT tseg %.3g)"
                         % (bsz, np.abs(Dt - Dt1).max() if Dt is not None and Dt1 is not None and Dt.shape == Dt1.shape else -1, np.abs(Dt - D).max() if Dt is not None and Dt.shape == D.shape else -1)))
         elif np.linalg.norm(Dt - Et) / max(np.linalg.norm(Et), 1e-300) > tol:
             out.append((["C16"], "encoding", "dense(Sense(tseg)) differs from sum_l diag(b_l) F S diag(ct_l): relative error %.3g > %.3g" % (np.linalg.norm(Dt - Et) / np.linalg.norm(Et), tol)))
         if Dt is not None and np.linalg.norm(Dt1 - D) <= 1e-3 * np.linalg.norm(D):
             out.append((["SPEC"], "vacuous", "the tseg instance does not differ from the plain operator"))
-        if DtH is None or Dt is None or not np.allclose(DtH, Dt.conj().T, atol=1e-10 * max(1.0, np.abs(Dt).max())):
+        if DtH is None or Dt is None or not core.allclose(DtH, Dt.conj().T, atol=1e-10 * max(1.0, np.abs(Dt).max())):
             out.append((["C16", "C01"], "adjoint", "Sense(tseg).H is not the conjugate transpose of Sense(tseg)"))
     return c, out
 
@@ -193,11 +193,11 @@ def factory_probes(ctx):
         sc = max(1.0, np.abs(F).max())
         if list(A.H.ishape) != list(A.oshape) or list(A.H.oshape) != list(A.ishape):
             out.append((["C01"], "factory_adjoint_shape", "%s.H shapes are not swapped" % name))
-        if not np.allclose(G, F.conj().T, atol=1e-9 * sc, rtol=0):
+        if not core.allclose(G, F.conj().T, atol=1e-9 * sc, rtol=0):
             out.append((["C01"], "factory_adjoint", "%s: <Ax,y> != <x,A^H y>, max |diff| %.3g" % (name, np.abs(G - F.conj().T).max())))
-        if H2 is None or not np.allclose(H2, F, atol=1e-9 * sc, rtol=0):
+        if H2 is None or not core.allclose(H2, F, atol=1e-9 * sc, rtol=0):
             out.append((["C01"], "factory_involution", "%s.H.H does not act like the original" % name))
-        if Nn is None or not np.allclose(Nn, F.conj().T @ F, atol=1e-9 * sc * sc, rtol=0):
+        if Nn is None or not core.allclose(Nn, F.conj().T @ F, atol=1e-9 * sc * sc, rtol=0):
             out.append((["C04"], "factory_normal", "%s.N differs from A^H A" % name))
         for kind, d in d1 + d2:
             out.append((["C02"], "factory_" + kind, "%s: %s" % (name, d)))
